@@ -368,6 +368,19 @@ func init() {
 			}
 			return e
 		}))
+		// files without names and an allOf rule that fails (parent missing, not an object, inheriting from itself): still library errors
+		for _, parent := range []string{"", "[1]", "{ // {allOf: \"@base\"}\n  \"b\": 2\n}", "{\n  \"a\": 5\n}"} {
+			parent := parent
+			emit(classify("unnamed-files.allOf;Check", "{ // {allOf: \"@base\"} ...} with @base = "+parent, map[string]int{"": 40}, func() error {
+				r := jschema.New("", "{ // {allOf: \"@base\"}\n  \"a\": 1\n}")
+				if parent != "" {
+					if e := r.AddType("@base", jschema.New("", parent)); e != nil {
+						return e
+					}
+				}
+				return r.Check()
+			}))
+		}
 		// a required reference cycle (the recursion error is a recorded finding: its witness is always part of the trace)
 		emit(classify("recursion.Check", "@t0 with @t0 = @t0", map[string]int{"": 3, "root": 3, "@t0": 3}, func() error {
 			r := jschema.New("root", "@t0")
